@@ -14,12 +14,12 @@ CONSTANTS Wide,         \* FALSE: small pools, exhaustive; TRUE: parameters draw
 VARIABLES steps, hist
 mcvars == <<sh, last, steps, hist>>
 
-File(f) == CASE f = "A" -> [nm |-> "logo.png", dg |-> "dA"]
-             [] f = "B" -> [nm |-> "logo.png", dg |-> "dB"]
-             [] f = "C" -> [nm |-> "pic.png", dg |-> "dA"]
+File(f) == CASE f = "A" -> [nm |-> "logo.png", dg |-> "dA", ext |-> <<30, 20>>]
+             [] f = "B" -> [nm |-> "logo.png", dg |-> "dB", ext |-> <<40, 10>>]
+             [] f = "C" -> [nm |-> "pic.png", dg |-> "dA", ext |-> <<30, 20>>]
 Files == {"A", "B", "C"}
 Img(f, r, c) == [r1 |-> r, c1 |-> c, r2 |-> 0, c2 |-> 0, two |-> FALSE, off |-> <<0, 0, 0, 0>>,
-                 nm |-> File(f).nm, dg |-> File(f).dg]
+                 ext |-> File(f).ext, nm |-> File(f).nm, nk |-> "", dg |-> File(f).dg]
 K1 == [r1 |-> 2, c1 |-> 1, r2 |-> 4, c2 |-> 3, off |-> <<0, 0, 0, 0>>, ct |-> "lineChart",
        ser |-> <<"Data!$A$1:$A$4", "Data!$B$1:$B$4">>, refs |-> <<"Data", "Data">>, qn |-> 0, ti |-> "T1", tt |-> "T1"]
 K2 == [r1 |-> 1, c1 |-> 2, r2 |-> 3, c2 |-> 4, off |-> <<0, 0, 0, 0>>, ct |-> "pieChart",
@@ -66,7 +66,7 @@ RemoveChartAny == Bound /\ \E s \in Pick(DOMAIN sh) : \E i \in Pick(DOMAIN sh[s]
           /\ RemoveChart(s, i)
           /\ Log([a |-> "RemoveChart", s |-> s, i |-> i])
 ChangeImageAny == Bound /\ \E s \in Pick(DOMAIN sh), f \in Pick(Files) : \E i \in Pick(DOMAIN sh[s].imgs) :
-          /\ ChangeImage(s, i, File(f).nm, File(f).dg)
+          /\ ChangeImage(s, i, File(f).nm, "", File(f).dg, File(f).ext)
           /\ Log([a |-> "ChangeImage", s |-> s, i |-> i, f |-> f])
 MoveImageAny == Bound /\ \E s \in Pick(DOMAIN sh), rc \in Pick(Cells) : \E i \in Pick(DOMAIN sh[s].imgs) :
           /\ MoveImage(s, i, rc[1], rc[2])
